@@ -23,10 +23,22 @@ contract(M + "_special_constraints_eq_zero", props=["C02", "C03", "C06", "C08"],
                   "implies(result, den(pcbo) - old(den(pcbo)) >= 0)",
                   "implies(result and bden(P) == 0, den(pcbo) == old(den(pcbo)))",
                   "implies(result and bden(P) != 0, den(pcbo) - old(den(pcbo)) >= lam)",
-                  "wf(pcbo)", "pcbo._ancilla == old(pcbo._ancilla)", "implies(old(bk(pcbo)), bk(pcbo))"],
+                  "wf(pcbo)", "pcbo._ancilla == old(pcbo._ancilla)", "implies(old(bk(pcbo)), bk(pcbo))",
+                  "implies(old(keys_ancbelow(pcbo, gn())) and keys_ancbelow(P, gn()) and gn() >= pcbo._ancilla, keys_ancbelow(pcbo, gn()))"],
          note="syntactic special form v*a - v*b*c == 0, read off the key/value order of a two-term model (L11-enum)")
 
 _F = "(den(self) - old(den(self)))"
+
+
+def _afg(obj, arg, cnt=None):
+    """ancilla freshness, generic in the ghost bound gn(): if no key of the model and of the argument mentions an
+    ancilla name '__a<j>' with j >= gn(), and gn() is at least the ancilla counter after the call, then no key of
+    the model does afterwards.  With gn() := the counter this is the invariant 'every constraint ancilla present
+    has a number below the counter', so the ancillas a later call draws from the counter are new."""
+    return "implies(old(keys_ancbelow(%s, gn())) and %s and gn() >= %s._ancilla, keys_ancbelow(%s, gn()))" % (
+        obj, arg, obj, obj)
+
+
 contract(M + "PCBO.add_constraint_eq_zero", props=["C02", "C06", "C16", "C19"], taint=["lam"],
          instances=[{"self": "model:PCBO", "P": p, "lam": "real", "bounds": b, "suppress_warnings": "bool"}
                     for p in PK for b in BND],
@@ -37,7 +49,7 @@ contract(M + "PCBO.add_constraint_eq_zero", props=["C02", "C06", "C16", "C19"], 
                   "implies(bden(P) == 0, %s == 0)" % _F,
                   "implies(bden(P) != 0, %s >= lam)" % _F,
                   "self._ancilla == old(self._ancilla)",
-                  "wf(self)", "result is self", "implies(old(bk(self)), bk(self))"])
+                  "wf(self)", "result is self", "implies(old(bk(self)), bk(self))", _afg("self", "keys_ancbelow(P, gn())")])
 
 
 # ---------------------------------------------------------------------------------- logic gates (C06)
@@ -75,7 +87,8 @@ def _gate(name, truth, arities, first=None):
              ensures=[_F + " >= 0",
                       "implies(%s, %s == 0)" % (truth, _F),
                       "implies(not (%s), %s >= lam)" % (truth, _F),
-                      "self._ancilla == old(self._ancilla)", "wf(self)", "result is self"])
+                      "self._ancilla == old(self._ancilla)", "wf(self)", "result is self",
+                      _afg("self", "ops_ancbelow(%s, gn())" % allops)])
 
 
 def _gate1(name, truth, two=False):
@@ -95,7 +108,8 @@ def _gate1(name, truth, two=False):
              ensures=[_F + " >= 0",
                       "implies(%s, %s == 0)" % (truth, _F),
                       "implies(not (%s), %s >= lam)" % (truth, _F),
-                      "self._ancilla == old(self._ancilla)", "wf(self)", "result is self"])
+                      "self._ancilla == old(self._ancilla)", "wf(self)", "result is self",
+                      _afg("self", "ops_ancbelow(%s, gn())" % allops)])
 
 
 _gate("add_constraint_AND", "andf(variables) == 1", (1, 2, 3))
@@ -137,8 +151,10 @@ contract(M + "_special_constraints_le_zero", props=["C02", "C03", "C08"],
                   "implies(result and bden(P) > 0, den(pcbo) - old(den(pcbo)) >= lam)",      # special forms never warn
                   "implies(result and bden(P) <= 0 and pcbo._ancilla == old(pcbo._ancilla), den(pcbo) == old(den(pcbo)))",
                   "implies(result and log_trick, pcbo._ancilla == old(pcbo._ancilla))",
-                  "pcbo._ancilla >= old(pcbo._ancilla)", "wf(pcbo)", "implies(old(bk(pcbo)), bk(pcbo))"],
-         loops={1: {"invariant": "bden(ancillas) == slackval(pre(pcbo._ancilla), visited, False) and "
+                  "pcbo._ancilla >= old(pcbo._ancilla)", "wf(pcbo)", "implies(old(bk(pcbo)), bk(pcbo))",
+                  "implies(old(keys_ancbelow(pcbo, gn())) and keys_ancbelow(P, gn()) and gn() >= pcbo._ancilla, keys_ancbelow(pcbo, gn()))"],
+         loops={1: {"invariant": "implies(gn() >= pcbo._ancilla, keys_ancbelow(ancillas, gn())) and "
+                                 "bden(ancillas) == slackval(pre(pcbo._ancilla), visited, False) and "
                                  "pcbo._ancilla == pre(pcbo._ancilla) + visited and wf(ancillas) and "
                                  "slackval(pre(pcbo._ancilla), visited, False) >= 0 and "
                                  "slackval(pre(pcbo._ancilla), visited, False) <= slackcap(visited, False) and "
@@ -158,7 +174,7 @@ def _ineq(name, holds, loops=None):
                        # P is integer-valued (the property's premise), in particular at the origin: its constant term
                        "int_at_origin(P)"],
              returns="param:self", modifies=["self"],
-             ensures=[_F + " >= 0",
+             ensures=[_F + " >= 0", _afg("self", "keys_ancbelow(P, gn())"),
                       "implies(not (%s) and not warned_unsat(), %s >= lam)" % (holds, _F),
                       "implies((%s) and %s == 0, %s == 0)" % (holds, _N, _F),
                       "implies((%s) and log_trick and slackval(old(self._ancilla), %s, True) == %s, %s == 0)"
@@ -177,7 +193,8 @@ def _ineq2(name, holds, wit, loops=None):
 
 
 _ineq2("add_constraint_le_zero", "bden(P) <= 0", "-bden(P)",
-       loops={1: {"invariant": "bden(P) == pre(bden(P)) + slackval(pre(self._ancilla), visited, log_trick) and "
+       loops={1: {"invariant": "implies(pre(keys_ancbelow(P, gn())) and gn() >= self._ancilla, keys_ancbelow(P, gn())) and "
+                               "bden(P) == pre(bden(P)) + slackval(pre(self._ancilla), visited, log_trick) and "
                                "max_val == pre(max_val) + slackcap(visited, log_trick) and "
                                "self._ancilla == pre(self._ancilla) + visited and wf(P) and "
                                "slackval(pre(self._ancilla), visited, log_trick) >= 0 and "
@@ -199,11 +216,12 @@ contract(M + "PCBO.add_constraint_ne_zero", props=["C02", "C16", "C19"], taint=[
          requires=["wf(self)", "lam > 0", "isint(bden(P))", "encloses(bounds, bden(P))",
                    "wf(P) if not typeis(P, 'dict') else True", "distinct(self, P)", "int_at_origin(P)"],
          returns="param:self", modifies=["self"],
-         ensures=[_F + " >= 0",
+         ensures=[_F + " >= 0", _afg("self", "keys_ancbelow(P, gn())"),
                   "implies(bden(P) == 0 and not warned_unsat(), %s >= lam)" % _F,
                   "implies(bden(P) != 0 and %s == 0, %s == 0)" % (_N, _F),
                   "self._ancilla >= old(self._ancilla)", "wf(self)", "result is self", "implies(old(bk(self)), bk(self))"],
-         loops={1: {"invariant": "bden(P) == pre(bden(P)) + " + _SGN + " and "
+         loops={1: {"invariant": "implies(pre(keys_ancbelow(P, gn())) and gn() >= self._ancilla, keys_ancbelow(P, gn())) and "
+                                 "bden(P) == pre(bden(P)) + " + _SGN + " and "
                                  "max_val == pre(max_val) + slackcap(visited, log_trick) and "
                                  "min_val == pre(min_val) - slackcap(visited, log_trick) and "
                                  "self._ancilla == pre(self._ancilla) + visited and wf(P) and "
